@@ -712,6 +712,41 @@ needs_record(LY_ERR rc)
     return rc && (rc != LY_ENOT) && (rc != LY_ENOTFOUND) && (rc != LY_EINCOMPLETE);
 }
 
+/* " ec=<class of the last error message>": the message without its quoted parts and digits, lower case, other characters as
+ * '-' (copied from impl/lyx.c); it tells failures of one entry point apart by the error path that was taken */
+static void
+print_errclass(const struct ly_ctx *ctx)
+{
+    const struct ly_err_item *e = ly_err_last(ctx);
+    const char *m = e ? e->msg : NULL;
+    char buf[48];
+    size_t n = 0;
+    int inq = 0;
+
+    if (!m) {
+        return;
+    }
+    for ( ; *m && (n < sizeof buf - 1); ++m) {
+        if (*m == '"') {
+            inq = !inq;
+            continue;
+        }
+        if (inq) {
+            continue;
+        }
+        if (isalpha((unsigned char)*m)) {
+            buf[n++] = (char)tolower((unsigned char)*m);
+        } else if (n && (buf[n - 1] != '-')) {
+            buf[n++] = '-';
+        }
+    }
+    while (n && (buf[n - 1] == '-')) {
+        --n;
+    }
+    buf[n] = 0;
+    printf("ec=%s ", buf);
+}
+
 static void
 check_record(const struct ly_ctx *ctx, LY_ERR rc)
 {
@@ -1053,6 +1088,9 @@ run_case(struct shard *S, struct vcase *c, int nf)
         printf("?unknown-entry ");
     }
     check_record(ctx, rc);
+    if (rc) {
+        print_errclass(ctx);
+    }
     free(in);
 
     /* the call must have popped every log location it pushed */
